@@ -654,8 +654,10 @@ func spec() corr.Spec {
 		Rule: "sequential class: scripts of acqR/acqW/acqRx/acqWx/rel/relx/cancel events (quiescence after each) over <= 12 (thorough <= 16; rwRatio+2 more for rwRatio >= 7) simultaneous callers, 1-4 keys of dynamic types int/int32/int64/uint8/string/struct (incl. extreme values, the same number under four types), rwRatio in {1,2,3,4,7,10,64,default}, single/wide/xhash maps with prime in {1,2,3,73,default 211}; 5 generator classes (rw-mix, reader-heavy, writer-heavy, cancel-heavy, drain) + 1/20 long-queue (20-40, thorough 20-60 blocked callers behind a writer, late arrivals, cancels at head/middle/tail) + 1/12 malformed; parallel class: `stress` lines = N goroutines x few keys for 0.2-1.5 s in a child process, no scheduling by the harness (callers' own section counters, termination, empty container, runtime fatal errors); thorough adds every maximal script <= 7 events over 3 callers x 2 keys (rw 2), <= 7 events over 4 callers (rw 3), <= 6 events incl. relx (rw 1, rw 2). A case is non-trivial when some caller had to wait or a release/cancel admitted a waiter; distinct = distinct script text",
 		Assumptions: []string{
 			"sync.Mutex makes each of the three critical sections (acquire up to Unlock, release, cancel fix-up) atomic; channels/select/context behave as documented",
-			"callers release what they acquired, with the same key and the matching Release* (read/write)",
-			"a script event runs until every goroutine is parked or finished (lib/sched quiescence), so a script is a path of the model's transition system",
+			"caller discipline (hypothesis of every theorem, `KS.enabled` in the model; SemMap.release trusts key, w and n blindly): a caller releases only what it acquired, once, with the SAME key, the matching Release* (read/write) and the *Weighted it was given",
+			"keys are valid Go map keys with reflexive equality (hashable, k == k): NaN keys (never found again, never deleted) and unhashable keys (s.m[key] panics with the mutex held) are outside the property's domain - Go map semantics; wide/xhash maps additionally need a key type remap can route (integers, strings, []byte, HitGroup/Bs)",
+			"sequential scripts: an event runs until every goroutine is parked or finished (lib/sched quiescence), so a script is a path of the model's transition system; overlapping critical sections are exercised only by the `stress` lines (child process, callers' own counters), atomicity itself rests on sync.Mutex (declaration surface + whole-body facts pin that the sections are bracketed by it)",
+			"progress is proved as safety only (no fitting waiter is ever parked; every waiter has a holder in front of it); fair scheduling by the Go runtime is assumed",
 			"routing of the sharded variants is a function of the key with values inside the shard array (C17)",
 			"rwRatio >= 1",
 		},
